@@ -8,8 +8,19 @@ MCNext ==
   \/ \E k \in Keys, id \in Ids : S(Insert(k, id)) \/ S(Remove(k, id))
   \/ \E k \in Keys, b \in Buckets : S(Migrate(k, b))
   \/ \E h \in [Keys -> Buckets] : S(Compact(h))
-  \/ S(FlushSnapshot) \/ (\E b \in Buckets : S(WriteBucket(b))) \/ S(CommitManifest) \/ S(Publish)
+  \/ (\E d \in SUBSET Buckets : S(FlushSnapshot(d))) \/ (\E b \in Buckets : S(WriteBucket(b))) \/ S(CommitManifest) \/ S(Publish)
   \/ (\E o \in Buckets \X Gens : S(DeleteObsolete(o))) \/ S(FlushEnd) \/ S(FlushFail)
   \/ (Crash /\ crashes < MaxCrash /\ crashes' = crashes + 1)
+\* unreferenced objects (garbage of failed / interrupted flushes, undeleted obsolete ones) can only be
+\* overwritten or deleted before anything reads them: states differing only there are bisimilar
+Relevant(p) == dMan[p[1]] = p[2] \/ mMan[p[1]] = p[2] \/ (fl.st # "idle" /\ p[2] = fl.gen)
+MCView == <<post, home, dirty, version, mMan, [p \in DOMAIN obj |-> IF Relevant(p) THEN obj[p] ELSE Absent],
+            dMan, fl, saved, dVer, committed, crashes>>
 MCSpec == MCInit /\ [][MCNext]_<<mvars, crashes>>
+Mutation ==
+  \/ \E k \in Keys, id \in Ids : Insert(k, id) \/ Remove(k, id)
+  \/ \E k \in Keys, b \in Buckets : Migrate(k, b)
+  \/ \E h \in [Keys -> Buckets] : Compact(h)
+\* refinement lemma: every design-level mutation satisfies the relation the trace specs check
+MutationsOK == [][Mutation => MutationOK]_<<mvars, crashes>>
 =============================================================================
